@@ -26,7 +26,8 @@ def check(run, only_program=None):
     ]
     run.build_and_audit('MaltModel.Props.C07', model_files=MODEL_FILES)
     info = {}
-    progs = [only_program] if only_program is not None else chk.executable_programs(run, info)
+    # a replay runs the known-finding witnesses (corpus) too: classes are attributed only while their witness still fails
+    progs = (list(chk.corpus_programs(run)) + [only_program]) if only_program is not None else chk.executable_programs(run, info)
     sources = chk.dynamic_phase(run, 'C07', progs)
     run.cov.update(info)
     if only_program is None:
